@@ -229,4 +229,121 @@ theorem densityX_gap (fl : ℚ → ℚ) (S : XSim) (damp : Sim) (N k : Nat) (ρ 
   have : (len : ℚ) ≤ (L : ℚ) + T + Z + k := by exact_mod_cast this
   linarith
 
+/-! ### `link_density_function`: cumulative histogram -/
+
+/-- entries in `[lo, hi)` -/
+def cnt (xs : List ℚ) (lo hi : ℚ) : Nat := xs.countP fun x => decide (lo ≤ x) && decide (x < hi)
+
+theorem cnt_split (xs : List ℚ) (lo mid hi : ℚ) (h1 : lo ≤ mid) (h2 : mid ≤ hi) :
+    cnt xs lo hi = cnt xs lo mid + cnt xs mid hi := by
+  unfold cnt
+  induction xs with
+  | nil => simp
+  | cons x t ih =>
+    simp only [List.countP_cons, ih]
+    rcases lt_or_ge x mid with hx | hx
+    · have a1 : x < hi := lt_of_lt_of_le hx h2
+      have a2 : ¬ mid ≤ x := not_le.2 hx
+      simp [hx, a1, a2]; omega
+    · have a1 : lo ≤ x := le_trans h1 hx
+      have a2 : ¬ x < mid := not_lt.2 hx
+      simp [hx, a1, a2]; omega
+
+theorem histBin_inner (xs edges : List ℚ) (n b : Nat) (hb : b + 1 ≠ n) :
+    histBin xs edges n b = cnt xs (edges.getD b 0) (edges.getD (b + 1) 0) := by
+  simp [histBin, cnt, hb]
+
+/-- `hist[:i].sum()` for `i < n_bins`: the entries in `[e₀, e_i)` -/
+theorem hist_prefix_sum (xs edges : List ℚ) (n i : Nat) (hi : i < n)
+    (hmono : ∀ a, a < n → edges.getD a 0 ≤ edges.getD (a + 1) 0) :
+    ((histogram xs edges n).take i).sum = cnt xs (edges.getD 0 0) (edges.getD i 0) := by
+  have hchain : ∀ a, a ≤ n → edges.getD 0 0 ≤ edges.getD a 0 := by
+    intro a ha
+    induction a with
+    | zero => exact le_refl _
+    | succ a ih => exact le_trans (ih (by omega)) (hmono a (by omega))
+  unfold histogram
+  rw [← List.map_take, List.take_range, Nat.min_eq_left (le_of_lt hi)]
+  induction i with
+  | zero =>
+    simp only [List.range_zero, List.map_nil, List.sum_nil, cnt]
+    symm
+    rw [List.countP_eq_zero]
+    intro x _
+    by_cases h : edges.getD 0 0 ≤ x
+    · simp [h, not_lt.2 h]
+    · simp [h]
+  | succ i ih =>
+    rw [List.range_succ, List.map_append, List.sum_append, ih (by omega)]
+    simp only [List.map_cons, List.map_nil, List.sum_cons, List.sum_nil, Nat.add_zero]
+    rw [histBin_inner xs edges n i (by omega)]
+    exact (cnt_split xs _ _ _ (hchain i (by omega)) (hmono i (by omega))).symm
+
+theorem cnt_below (xs : List ℚ) (lo hi : ℚ) (hlo : ∀ x ∈ xs, lo ≤ x) :
+    cnt xs lo hi = xs.countP fun x => decide (x < hi) := by
+  unfold cnt
+  apply List.countP_congr
+  intro x hx
+  simp [hlo x hx]
+
+theorem countP_add_eq_length {α : Type} (l : List α) (p q : α → Bool)
+    (h : ∀ x ∈ l, (p x = true ∧ q x = false) ∨ (p x = false ∧ q x = true)) :
+    l.countP p + l.countP q = l.length := by
+  induction l with
+  | nil => simp
+  | cons a t ih =>
+    have := ih (fun x hx => h x (List.mem_cons_of_mem _ hx))
+    rcases h a (by simp) with ⟨h1, h2⟩ | ⟨h1, h2⟩ <;> simp [List.countP_cons, h1, h2] <;> omega
+
+theorem countP_add_le_length {α : Type} (l : List α) (p q : α → Bool)
+    (h : ∀ x ∈ l, ¬ (p x = true ∧ q x = true)) : l.countP p + l.countP q ≤ l.length := by
+  induction l with
+  | nil => simp
+  | cons a t ih =>
+    have := ih (fun x hx => h x (List.mem_cons_of_mem _ hx))
+    have ha := h a (by simp)
+    cases hp : p a <;> cases hq : q a <;> simp [List.countP_cons, hp, hq] <;>
+      first | omega | (exact absurd ⟨hp, hq⟩ ha)
+
+/-- every entry falls into exactly one bin: `hist.sum()` is the number of entries -/
+theorem hist_total (xs edges : List ℚ) (n : Nat) (hn : 0 < n)
+    (hmono : ∀ a, a < n → edges.getD a 0 ≤ edges.getD (a + 1) 0)
+    (hin : ∀ x ∈ xs, edges.getD 0 0 ≤ x ∧ x ≤ edges.getD n 0) :
+    (histogram xs edges n).sum = xs.length := by
+  obtain ⟨m, rfl⟩ : ∃ m, n = m + 1 := ⟨n - 1, by omega⟩
+  have hp := hist_prefix_sum xs edges (m + 1) m (by omega) hmono
+  have e : histogram xs edges (m + 1)
+      = (histogram xs edges (m + 1)).take m ++ [histBin xs edges (m + 1) m] := by
+    unfold histogram
+    rw [← List.map_take, List.take_range, Nat.min_eq_left (by omega), List.range_succ,
+      List.map_append]
+    rfl
+  rw [e, List.sum_append, hp]
+  simp only [List.sum_cons, List.sum_nil, Nat.add_zero]
+  have hl : histBin xs edges (m + 1) m = xs.countP fun x =>
+      decide (edges.getD m 0 ≤ x) && decide (x ≤ edges.getD (m + 1) 0) := by
+    simp [histBin]
+  rw [hl]
+  apply countP_add_eq_length
+  intro x hx
+  obtain ⟨h0, h1⟩ := hin x hx
+  clear hp e hl hin hmono
+  generalize edges.getD 0 0 = a at *
+  generalize edges.getD m 0 = b at *
+  generalize edges.getD (m + 1) 0 = c at *
+  rcases lt_or_ge x b with h | h
+  · left; simp [h0, h, not_le.2 h]
+  · right; simp [h, h1, not_lt.2 h]
+
+theorem length_allEntries (S : Sim) (N : Nat) : (allEntries S N).length = N * N := by
+  simp [allEntries]
+
+theorem offDiag_countP_le_all (S : Sim) (N : Nat) (q : ℚ → Bool) :
+    (offDiag S N).countP q ≤ (allEntries S N).countP q := by
+  simp only [offDiag, allEntries, List.countP_map, List.countP_filter]
+  apply List.countP_mono_left
+  intro p _ h
+  simp only [Function.comp, Bool.and_eq_true] at h ⊢
+  exact h.1
+
 end Pyunicorn.Similarity
